@@ -16,7 +16,7 @@ pub fn def() -> CheckDef {
         meta: CheckMeta {
             id: "C03",
             level: "exploration",
-            rule: "generated single-threaded step sequences over {open reader (<= 4 open), close reader j (any order), writer commit(ops), writer rollback(ops), each optionally with 1-2 readers begun while the writer is open, reopen (only with no reader open)} with update/delete-heavy operations on a bounded key set at page size 1024, so pages are freed and reused at every commit, and bursts that rewrite ~40 page-sized values so that the free set is drained and any page released too early is overwritten at once. Each reader keeps the model clone taken when it began; after EVERY step every open reader is dumped in full and compared with its clone (a panic is a failure); commits are also checked with the independent parser. The file is pre-sized so that no commit grows it while a reader is open on the same thread (documented self-deadlock); cases that would come near the limit are discarded and counted. Non-trivial = a reader that stayed open across >= 2 commits of which at least one reused previously freed pages, while another reader of a different age was open. Distinct = hash of the case.",
+            rule: "generated single-threaded step sequences over {open reader (<= 4 open), close reader j (any order), writer commit(ops), writer rollback(ops), each optionally with 1-2 readers begun while the writer is open, reopen (only with no reader open)} (plus sequences that start with one reader held across 30-70 small commits) with update/delete-heavy operations on a bounded key set at page size 1024, so pages are freed and reused at every commit, and bursts that rewrite ~40 page-sized values so that the free set is drained and any page released too early is overwritten at once. Each reader keeps the model clone taken when it began; after EVERY step every open reader is dumped in full and compared with its clone (a panic is a failure); commits are also checked with the independent parser. The file is pre-sized so that no commit grows it while a reader is open on the same thread (documented self-deadlock); cases that would come near the limit are discarded and counted. Non-trivial = a reader that stayed open across >= 2 commits of which at least one reused previously freed pages, while another reader of a different age was open. Distinct = hash of the case.",
             assumptions: &[
                 "one thread holds several read transactions and at most one write transaction at a time; the writer never needs to grow the file (pre-sized), which is the documented precondition for doing this on one thread",
             ],
@@ -90,6 +90,22 @@ pub fn strategy(max_steps: usize, num_pages: usize) -> impl Strategy<Value = C03
         ];
         s.append(&mut setup);
         C03Case { num_pages, setup: s, steps }
+    })
+}
+
+/// A reader held open across a long run of small commits (30-70), then the usual random steps:
+/// whatever the free list does with a long backlog of pending entries, the old reader and any
+/// younger one keep their snapshots.
+pub fn long_hold_strategy(max_tail: usize, num_pages: usize) -> impl Strategy<Value = C03Case> {
+    (30usize..70, prop::collection::vec(small_ops(4), 70), strategy(max_tail, num_pages)).prop_map(|(n, mut opss, mut case)| {
+        let mut steps = vec![Step::OpenReader];
+        for ops in opss.drain(..n) {
+            steps.push(Step::Write { commit: true, ops, inside: 0 });
+        }
+        steps.push(Step::OpenReader);
+        steps.append(&mut case.steps);
+        case.steps = steps;
+        case
     })
 }
 
@@ -307,6 +323,17 @@ fn shard(ctx: &ShardCtx, known: &Known) -> ShardOut {
             classes.push("reopen".into());
         }
         CaseVerdict { nontrivial: st.nontrivial && !st.discarded, classes, failure: r.err() }
+    });
+    // long holds: one reader across 30-70 commits before anything else happens
+    drive(ctx, &mut out, known, "c03", long_hold_strategy(steps / 2, pages), n / 12, "c03-long", None, |case| {
+        note_current(ctx, "c03", case);
+        let mut st = C03Stats::default();
+        let r = run_case(case, &path, &mut st);
+        dumps.set(dumps.get() + st.dumps);
+        if st.discarded {
+            discarded.set(discarded.get() + 1);
+        }
+        CaseVerdict { nontrivial: st.nontrivial && !st.discarded, classes: vec!["a reader held across 30-70 commits".into(), format!("max open readers {}", st.max_open)], failure: r.err() }
     });
     clear_current(ctx);
     out.excluded = discarded.get();
